@@ -15,11 +15,14 @@ S  direct oracles on the implementation (no model): psi_n >= 0 and = normalised 
    p along the in-plane field, B.n = 0, B against the analytic / finite-difference flux derivatives,
    velocity components in the (rotated) basis.
 """
+import glob
+import json
 import math
+import os
 
 import numpy as np
 
-from harness.vlib.util import f2b, b2f, fs, close, call
+from harness.vlib.util import f2b, b2f, fs, close, call, VERIF
 
 NAN = float('nan')
 
@@ -294,6 +297,7 @@ def stream_equilibria(ctx):
         ec.interpN = Interpolator2DArray(ec.r, ec.z, grid, 'cubic', 'none', 0, 0)
         ec.normgrid = grid
         ec.poly = PolygonMask2D(eq.lcfs_polygon)
+        ec.tri_edges = triangulation_edges(eq.lcfs_polygon)
         ec.dr, ec.dz = eq._calculate_differentials(eq.r_data, eq.z_data, eq.psi_data)
         ec.sets = [ProfSet(rng, ec, k_) for k_ in range(nsets)]
         ec.bpol_max = 0.0
@@ -352,6 +356,7 @@ def stream_equilibria(ctx):
         else:
             compare_2d(ctx, rc, line, o.split())
     for ec in ecs:
+        crack_search(ctx, ec)
         grid_node_stream(ctx, ec)
         if ec.analytic:
             ctx.count('solovev sign%+d' % ec.sign)
@@ -428,8 +433,11 @@ def oracle_scalar(ctx, rc, obs):
     if edge_distance(r, z, ec.vs) > 1e-6 and abs(psin - 1.0) > 1e-9:
         want = 1.0 if (crossing(r, z, ec.vs) and psin <= 1.0) else 0.0
         if ins != want:
-            ctx.fail('C12:inside_lcfs:mask', 'inside_lcfs(%r, %r) = %r, polygon(crossing number) = %r, psi_n = %r on %s'
-                     % (r, z, ins, crossing(r, z, ec.vs), psin, ec.name), where(rc))
+            if want == 1.0 and on_triangulation_edge(r, z, ec):
+                report_crack(ctx, ec, r, z, psin, ins)
+            else:
+                ctx.fail('C12:inside_lcfs:mask', 'inside_lcfs(%r, %r) = %r, polygon(crossing number) = %r, psi_n = %r on %s'
+                         % (r, z, ins, crossing(r, z, ec.vs), psin, ec.name), where(rc))
     else:
         ctx.count('mask-guard-band-skipped')
     # map2d: profile at the normalised flux of the point inside, outside value elsewhere
@@ -571,6 +579,61 @@ def compare_3d(ctx, rc, line, mt):
     oracle_velocity(ctx, rc, obs, v3, (rh, ph))
 
 
+def triangulation_edges(polygon):
+    """internal edges (vertex index pairs) of raysect's triangulation of the polygon -- the same deterministic
+    triangulation PolygonMask2D builds its mesh from"""
+    from raysect.core.math.polygon import triangulate2d
+    poly = np.ascontiguousarray(np.array(polygon, dtype=np.float64))
+    n = len(poly)
+    edges = set()
+    for t in triangulate2d(poly):
+        for a, b in ((t[0], t[1]), (t[1], t[2]), (t[2], t[0])):
+            a, b = int(a), int(b)
+            if abs(a - b) not in (1, n - 1):
+                edges.add((min(a, b), max(a, b)))
+    return [(tuple(poly[a]), tuple(poly[b])) for a, b in sorted(edges)]
+
+
+def on_triangulation_edge(r, z, ec, tol=1e-9):
+    return any(edge_distance(r, z, [a, b]) <= tol for a, b in ec.tri_edges)
+
+
+def report_crack(ctx, ec, r, z, psin, ins):
+    eq = ec.eq
+    st, m = call(eq.map2d(lambda x: 1000.0 + x, -1.0), r, z)
+    ctx.fail('C12:inside_lcfs:interior-point-on-triangulation-edge',
+             'equilibrium %s: (r, z) = (%r, %r) is inside the LCFS polygon (crossing number; %.3g from its boundary) with psi_n = %r <= 1, '
+             'but inside_lcfs = %r and map2d(lambda x: 1000 + x, -1.0)(r, z) = %r (the outside value): the point lies, to rounding, on an internal edge '
+             'of the polygon triangulation and PolygonMask2D (Discrete2DMesh barycentric test) assigns it to neither triangle'
+             % (ec.name, r, z, edge_distance(r, z, ec.vs), psin, ins, m if st == 'ok' else st),
+             dict(equilibrium=ec.desc, r=r, z=z, psin=psin, inside_lcfs=ins, map2d=m if st == 'ok' else st))
+
+
+def crack_search(ctx, ec):
+    """S, seeded by the mechanism: floating-point points on the internal edges of the LCFS polygon triangulation
+    (in particular axis-aligned chords, where a whole line segment is representable) must be inside the LCFS"""
+    eq = ec.eq
+    rng = ctx.rng
+    fracs = [0.5, 0.25, 0.75, 0.1, 0.9, 1 / 3, 0.37, 0.61]
+    nrand = ctx.n(2, 12)
+    for (a, b) in ec.tri_edges:
+        for f in fracs + [rng.random() for _ in range(nrand)]:
+            x, y = a[0] + f * (b[0] - a[0]), a[1] + f * (b[1] - a[1])
+            if not (ec.r[0] <= x <= ec.r[-1] and ec.z[0] <= y <= ec.z[-1]):
+                continue
+            if edge_distance(x, y, ec.vs) <= 1e-6 or not crossing(x, y, ec.vs):
+                continue
+            st, psin = call(eq.psi_normalised, x, y)
+            if st != 'ok' or not psin <= 1.0 - 1e-9:
+                continue
+            st, ins = call(eq.inside_lcfs, x, y)
+            ctx.case(key=('crack', ec.name, f2b(x), f2b(y)))
+            ctx.count('crack-search-points')
+            if st != 'ok' or ins != 1.0:
+                ctx.count('crack-search-hits')
+                report_crack(ctx, ec, x, y, psin, ins if st == 'ok' else st)
+
+
 def grid_node_stream(ctx, ec):
     """psi_normalised at grid nodes = clamp(model-normalised node value) (the interpolant passes through its knots);
     poloidal field against analytic (Solov'ev) / centred finite differences of eq.psi"""
@@ -632,6 +695,13 @@ class Rec:
 EDGE = [0.0, -0.0, 1.0, -1.0, 0.5, 2.0, 1e-20, -1e-20, 1e-150, 1e-170, -1e-170, 5e-324, 1e150, 1e170, -1e170, 3.0, -4.0]
 
 
+def _num(t):
+    """corpus numbers: JSON numbers or the strings 'nan', '-0.0', 'next_above_1', 'next_below_1'"""
+    if isinstance(t, str):
+        return {'next_above_1': math.nextafter(1.0, 2.0), 'next_below_1': math.nextafter(1.0, 0.0)}.get(t) or float(t)
+    return float(t)
+
+
 def rnd(rng, edge=0.35):
     k = rng.random()
     if k < edge:
@@ -657,12 +727,8 @@ def stream_helpers(ctx):
 
     square = np.array([[0.0, 0.0], [2.0, 0.0], [2.0, 2.0], [0.0, 2.0]])
     pm = PolygonMask2D(square)
-    n = ctx.n(2500, 60000)
-    for it in range(n):
-        r, z = rng.uniform(0.2, 3.0), rng.uniform(-2, 2)
-        # ---- EFITLCFSMask
-        px, py = rng.choice([(1.0, 1.0), (0.3, 1.7), (3.0, 1.0), (-0.5, 0.5), (1.0, 2.5), (rng.uniform(0.1, 1.9), rng.uniform(0.1, 1.9)), (rng.uniform(2.1, 4), rng.uniform(-1, 3))])
-        psv = rng.choice([0.0, 0.5, 1.0, math.nextafter(1.0, 2.0), math.nextafter(1.0, 0.0), 1.5, -0.5, rng.uniform(0, 2), NAN])
+
+    def do_mask(px, py, psv):
         ps_rec = Rec(psv)
         m = efit.EFITLCFSMask(square, ps_rec)
         st, got = call(m, px, py)
@@ -672,11 +738,8 @@ def stream_helpers(ctx):
             (not ps_rec.calls) or same_args(ps_rec.calls, (px, py)), 'psi_n called with %r, point %r' % (ps_rec.calls, (px, py)),
             dict(point=(px, py), psin=psv),
             oracle=(st == 'ok' and got == want, 'C12:EFITLCFSMask:value', 'EFITLCFSMask(square)(%r, %r) with psi_n = %r gave %r, want %r' % (px, py, psv, got, want)))
-        # ---- MagneticField
-        drv, dzv, fval = rnd(rng), rnd(rng), rnd(rng, 0.1)
-        insv = rng.choice([0.0, 1.0, 1.0, -0.0, 0.5, NAN] if rng.random() < 0.2 else [0.0, 1.0])
-        psn = rng.uniform(0, 1.2)
-        rvac, bvac = rng.uniform(0.5, 3), rng.uniform(-3, 3)
+
+    def do_bfield(r, z, drv, dzv, fval, insv, psn, rvac, bvac):
         recs = dict(psin=Rec(psn), dr=Rec(drv), dz=Rec(dzv), f=Rec(fval), ins=Rec(insv))
         mf = efit.MagneticField(recs['psin'], recs['dr'], recs['dz'], recs['f'], rvac, bvac, recs['ins'])
         st, b = call(mf, r, z)
@@ -687,23 +750,17 @@ def stream_helpers(ctx):
         add('bfield', 'bf %s' % fs([drv, dzv, insv, psn, fval, rvac, bvac, r]), list(vt(b)) if st == 'ok' else st, argok,
             'calls: %r' % {k: v.calls for k, v in recs.items()}, dict(r=r, z=z, dpsi_dr=drv, dpsi_dz=dzv, f=fval, inside=insv, psin=psn, rvac=rvac, bvac=bvac),
             oracle=(st == 'ok' and vclose(vt(b), want, 1e-15), 'C12:MagneticField:components', 'MagneticField gave %r, want (-psi_z/r, F|vac, psi_r/r) = %r' % (vt(b) if st == 'ok' else st, want)))
-        # ---- basis vectors and velocity on an arbitrary field vector
-        k = rng.random()
-        if k < 0.12:
-            bv = (rng.choice([0.0, -0.0]), rnd(rng), rng.choice([0.0, -0.0]))
-        elif k < 0.3:
-            bv = (rng.choice([0.0, rnd(rng)]), rnd(rng), rng.choice([0.0, rnd(rng)]))
-        else:
-            bv = (rnd(rng, 0.15), rnd(rng, 0.15), rnd(rng, 0.15))
+
+    def do_basis(r, z, bv):
         frec = Rec(Vector3D(*bv))
-        for cls, op, sig in ((efit.PoloidalFieldVector, 'pol', 'poloidal'), (efit.FluxSurfaceNormal, 'nrm', 'normal')):
+        for cls, op in ((efit.PoloidalFieldVector, 'pol'), (efit.FluxSurfaceNormal, 'nrm')):
             frec.calls = []
             st, v = call(cls(frec), r, z)
             add(op, '%s %s' % (op, fs(bv)), list(vt(v)) if st == 'ok' else ('E' if st == 'ZeroDivisionError' else st), same_args(frec.calls, (r, z)),
                 'field called with %r, point %r' % (frec.calls, (r, z)), dict(field=bv, r=r, z=z),
                 oracle=basis_oracle(op, bv, vt(v) if st == 'ok' else st))
-        tv, pv, nv = rnd(rng, 0.2), rnd(rng, 0.2), rnd(rng, 0.2)
-        psn = rng.uniform(0, 1)
+
+    def do_vel(r, z, bv, psn, tv, pv, nv):
         frec = Rec(Vector3D(*bv))
         rr = dict(psin=Rec(psn), t=Rec(tv), p=Rec(pv), n=Rec(nv))
         fc = efit.FluxCoordToCartesian(frec, rr['psin'], rr['t'], rr['p'], rr['n'])
@@ -715,6 +772,37 @@ def stream_helpers(ctx):
             'calls: field %r psin %r tor %r pol %r nrm %r' % (frec.calls, rr['psin'].calls, rr['t'].calls, rr['p'].calls, rr['n'].calls),
             dict(field=bv, psin=psn, tor=tv, pol=pv, nrm=nv, r=r, z=z),
             oracle=velocity_oracle(bv, (tv, pv, nv), vt(v) if st == 'ok' else st))
+
+    # corpus first: boundary cases of every discrete decision in the helper classes
+    for path in sorted(glob.glob(os.path.join(VERIF, 'corpus', 'C12', '*.json'))):
+        for e in json.load(open(path))['cases']:
+            ctx.count('corpus')
+            if e['kind'] == 'mask':
+                do_mask(e['point'][0], e['point'][1], _num(e['psin']))
+            elif e['kind'] == 'bfield':
+                do_bfield(e['r'], e['z'], _num(e['dpsi_dr']), _num(e['dpsi_dz']), _num(e['f']), _num(e['inside']), e['psin'], e['rvac'], e['bvac'])
+            elif e['kind'] == 'basis':
+                do_basis(e['r'], e['z'], tuple(_num(t) for t in e['field']))
+            elif e['kind'] == 'vel':
+                do_vel(e['r'], e['z'], tuple(_num(t) for t in e['field']), e['psin'], _num(e['tor']), _num(e['pol']), _num(e['nrm']))
+
+    n = ctx.n(2500, 60000)
+    for it in range(n):
+        r, z = rng.uniform(0.2, 3.0), rng.uniform(-2, 2)
+        px, py = rng.choice([(1.0, 1.0), (0.3, 1.7), (3.0, 1.0), (-0.5, 0.5), (1.0, 2.5), (rng.uniform(0.1, 1.9), rng.uniform(0.1, 1.9)), (rng.uniform(2.1, 4), rng.uniform(-1, 3))])
+        psv = rng.choice([0.0, 0.5, 1.0, math.nextafter(1.0, 2.0), math.nextafter(1.0, 0.0), 1.5, -0.5, rng.uniform(0, 2), NAN])
+        do_mask(px, py, psv)
+        insv = rng.choice([0.0, 1.0, 1.0, -0.0, 0.5, NAN] if rng.random() < 0.2 else [0.0, 1.0])
+        do_bfield(r, z, rnd(rng), rnd(rng), rnd(rng, 0.1), insv, rng.uniform(0, 1.2), rng.uniform(0.5, 3), rng.uniform(-3, 3))
+        k = rng.random()
+        if k < 0.12:
+            bv = (rng.choice([0.0, -0.0]), rnd(rng), rng.choice([0.0, -0.0]))
+        elif k < 0.3:
+            bv = (rng.choice([0.0, rnd(rng)]), rnd(rng), rng.choice([0.0, rnd(rng)]))
+        else:
+            bv = (rnd(rng, 0.15), rnd(rng, 0.15), rnd(rng, 0.15))
+        do_basis(r, z, bv)
+        do_vel(r, z, bv, rng.uniform(0, 1), rnd(rng, 0.2), rnd(rng, 0.2), rnd(rng, 0.2))
         # ---- raysect blend as used by map2d (mask values 0/1 only in real use)
         if it % 10 == 0:
             from raysect.core.math.function.float import Blend2D
@@ -816,7 +904,6 @@ def run(ctx):
 
 
 def replay(ctx, path):
-    import json
     r = json.load(open(path))
     print(json.dumps(r, indent=1)[:3000])
     run(ctx)
